@@ -4,159 +4,99 @@ package registration
 
 import (
 	"context"
-	"crypto/rand"
-	"crypto/x509"
-	"crypto/x509/pkix"
-	"math/big"
+	"strings"
 	"time"
 
+	wrapping "github.com/hashicorp/go-kms-wrapping/v2"
+	"github.com/hashicorp/go-kms-wrapping/v2/aead"
 	"github.com/hashicorp/nodeenrollment"
 	"github.com/hashicorp/nodeenrollment/types"
 	"github.com/hashicorp/nodeenrollment/zzverif/vf"
+	"github.com/hashicorp/nodeenrollment/zzverif/vfs"
+	"github.com/mr-tron/base58"
 	"google.golang.org/protobuf/proto"
 	"google.golang.org/protobuf/types/known/timestamppb"
 )
 
-func init() { VfHarnesses["VerifC01NodeLed"] = VerifC01NodeLed }
-
-// ---- marshal-based storage, like the real back ends ----
-type vfEntry struct {
-	kind int
-	id   string
-	data []byte
-}
-type vfStorage struct{ entries []vfEntry }
-
-func vfKind(m proto.Message) int {
-	switch m.(type) {
-	case *types.NodeInformation:
-		return 1
-	case *types.RootCertificates:
-		return 2
-	case *types.NodeCredentials:
-		return 3
-	case *types.ServerLedActivationToken:
-		return 4
-	}
-	return 0
-}
-func (s *vfStorage) Store(ctx context.Context, m nodeenrollment.MessageWithId) error {
-	b, err := proto.Marshal(m)
-	if err != nil {
-		return err
-	}
-	k := vfKind(m)
-	for i := range s.entries {
-		if s.entries[i].kind == k && s.entries[i].id == m.GetId() {
-			s.entries[i].data = b
-			return nil
-		}
-	}
-	s.entries = append(s.entries, vfEntry{k, m.GetId(), b})
-	return nil
-}
-func (s *vfStorage) Load(ctx context.Context, m nodeenrollment.MessageWithId) error {
-	k := vfKind(m)
-	for _, e := range s.entries {
-		if e.kind == k && e.id == m.GetId() {
-			return proto.Unmarshal(e.data, m)
-		}
-	}
-	return nodeenrollment.ErrNotFound
-}
-func (s *vfStorage) Remove(ctx context.Context, m nodeenrollment.MessageWithId) error {
-	k := vfKind(m)
-	for i := range s.entries {
-		if s.entries[i].kind == k && s.entries[i].id == m.GetId() {
-			s.entries = append(s.entries[:i], s.entries[i+1:]...)
-			return nil
-		}
-	}
-	return nil
-}
-func (s *vfStorage) List(ctx context.Context, m proto.Message) ([]string, error)     { return nil, nil }
-
-
-func (s *vfStorage) count(kind int) int {
-	n := 0
-	for _, e := range s.entries {
-		if e.kind == kind {
-			n++
-		}
-	}
-	return n
+func init() {
+	VfHarnesses["VerifC01NodeLed"] = VerifC01NodeLed
+	VfHarnesses["VerifC01Token"] = VerifC01Token
+	VfHarnesses["VerifC01Wrapped"] = VerifC01Wrapped
+	VfHarnesses["VerifC01Rewrapped"] = VerifC01Rewrapped
 }
 
-func vfStoreRoots(ctx context.Context, st *vfStorage, t0 time.Time) {
-	mk := func(id string, k int) *types.RootCertificate {
-		tmpl := &x509.Certificate{SubjectKeyId: vf.Pkix(k), Subject: pkix.Name{CommonName: "root"}, SerialNumber: big.NewInt(1),
-			NotBefore: t0.Add(-time.Hour), NotAfter: t0.Add(time.Hour), IsCA: true, BasicConstraintsValid: true}
-		priv, _ := x509.ParsePKCS8PrivateKey(vf.Pkcs8(k))
-		pub, _ := x509.ParsePKIXPublicKey(vf.Pkix(k))
-		der, err := x509.CreateCertificate(rand.Reader, tmpl, tmpl, pub, priv)
-		if err != nil {
-			panic(err)
-		}
-		return &types.RootCertificate{Id: id, PublicKeyPkix: vf.Pkix(k), PrivateKeyPkcs8: vf.Pkcs8(k), PrivateKeyType: types.KEYTYPE_ED25519,
-			CertificateDer: der, NotBefore: timestamppb.New(tmpl.NotBefore), NotAfter: timestamppb.New(tmpl.NotAfter)}
-	}
-	if err := (&types.RootCertificates{Id: nodeenrollment.RootsMessageId, Current: mk("current", 0), Next: mk("next", 1)}).Store(ctx, st); err != nil {
+// vfAeadWrapper is a real aead wrapper keyed with universe key k (its own code runs from SSA).
+func vfAeadWrapper(keyId string, k int) wrapping.Wrapper {
+	w := aead.NewWrapper()
+	if _, err := w.SetConfig(context.Background(), wrapping.WithKeyId(keyId)); err != nil {
 		panic(err)
 	}
+	if err := w.SetAesGcmKeyBytes(vf.X25519Priv(k)); err != nil {
+		panic(err)
+	}
+	return w
+}
+
+// vfRecord stores an authorised node record for universe key k as AuthorizeNode would leave it.
+func vfRecord(ctx context.Context, st nodeenrollment.Storage, k int, nonce, encPub []byte, serverPriv int) *types.NodeInformation {
+	id, err := nodeenrollment.KeyIdFromPkix(vf.Pkix(k))
+	if err != nil {
+		panic(err)
+	}
+	rec := &types.NodeInformation{Id: id, CertificatePublicKeyPkix: vf.Pkix(k), CertificatePublicKeyType: types.KEYTYPE_ED25519,
+		EncryptionPublicKeyBytes: encPub, EncryptionPublicKeyType: types.KEYTYPE_X25519, RegistrationNonce: nonce,
+		ServerEncryptionPrivateKeyBytes: vf.X25519Priv(serverPriv), ServerEncryptionPrivateKeyType: types.KEYTYPE_X25519}
+	if err := rec.Store(ctx, st); err != nil {
+		panic(err)
+	}
+	return rec
+}
+
+// vfSignedRequest builds a well-signed fetch request (the only thing the server checks about the signature
+// is that it is by the key named inside the bundle; forged signatures are C03).
+func vfSignedRequest(t0 time.Time, key int, nonce, encPub, wrapped []byte) *types.FetchNodeCredentialsRequest {
+	info := &types.FetchNodeCredentialsInfo{CertificatePublicKeyPkix: vf.Pkix(key), CertificatePublicKeyType: types.KEYTYPE_ED25519,
+		Nonce: nonce, EncryptionPublicKeyBytes: encPub, EncryptionPublicKeyType: types.KEYTYPE_X25519,
+		NotBefore: timestamppb.New(t0.Add(-time.Hour)), NotAfter: timestamppb.New(t0.Add(time.Hour)), WrappedRegistrationInfo: wrapped}
+	bundle, err := proto.Marshal(info)
+	if err != nil {
+		panic(err)
+	}
+	return &types.FetchNodeCredentialsRequest{Bundle: bundle, BundleSignature: vf.SigBy(key, bundle)}
+}
+
+func vfIssued(resp *types.FetchNodeCredentialsResponse, err error) bool {
+	return err == nil && resp != nil && len(resp.EncryptedNodeCredentials) > 0
 }
 
 // C01, clause (a): with a 32-byte nonce and no wrapped info, credentials are issued only to the
 // request whose certificate key, nonce and encryption key equal those of a stored record; every
-// other well-signed request gets the empty response or an error and creates no record.
+// other well-signed request gets the empty response or an error, and storage is left exactly as it was.
+// Inductive-step form: the storage holds an arbitrary authorised record (any key of the universe, any
+// nonce, any encryption key) or none, plus an unrelated node's record.
 func VerifC01NodeLed() {
 	ctx := context.Background()
-	st := &vfStorage{}
+	st := &vfs.Storage{}
 	t0 := vf.Now()
-	// roots (only needed to sign the response)
-	mk := func(id string, k int) *types.RootCertificate {
-		tmpl := &x509.Certificate{SubjectKeyId: vf.Pkix(k), Subject: pkix.Name{CommonName: "root"}, SerialNumber: big.NewInt(1),
-			NotBefore: t0.Add(-time.Hour), NotAfter: t0.Add(time.Hour), IsCA: true, BasicConstraintsValid: true}
-		priv, _ := x509.ParsePKCS8PrivateKey(vf.Pkcs8(k))
-		pub, _ := x509.ParsePKIXPublicKey(vf.Pkix(k))
-		der, err := x509.CreateCertificate(rand.Reader, tmpl, tmpl, pub, priv)
-		if err != nil {
-			panic(err)
-		}
-		return &types.RootCertificate{Id: id, PublicKeyPkix: vf.Pkix(k), PrivateKeyPkcs8: vf.Pkcs8(k), PrivateKeyType: types.KEYTYPE_ED25519,
-			CertificateDer: der, NotBefore: timestamppb.New(tmpl.NotBefore), NotAfter: timestamppb.New(tmpl.NotAfter)}
-	}
-	if err := (&types.RootCertificates{Id: nodeenrollment.RootsMessageId, Current: mk("current", 0), Next: mk("next", 1)}).Store(ctx, st); err != nil {
-		panic(err)
-	}
-	// one authorised node: arbitrary key of the universe, arbitrary nonce and encryption key
+	vfs.StoreRoots(ctx, st, t0)
+	vfRecord(ctx, st, 5, vf.Bytes("othernonce", 32), vf.X25519Pub(2), 8) // an unrelated node
 	hasRec := vf.Bool("record-present")
 	recKey := vf.Int("reckey", 2, 4)
 	recNonce := vf.Bytes("recnonce", 32)
 	recEnc := vf.X25519Pub(vf.Int("recenc", 0, 1))
 	if hasRec {
-		id, _ := nodeenrollment.KeyIdFromPkix(vf.Pkix(recKey))
-		rec := &types.NodeInformation{Id: id, CertificatePublicKeyPkix: vf.Pkix(recKey), CertificatePublicKeyType: types.KEYTYPE_ED25519,
-			EncryptionPublicKeyBytes: recEnc, EncryptionPublicKeyType: types.KEYTYPE_X25519, RegistrationNonce: recNonce,
-			ServerEncryptionPrivateKeyBytes: vf.X25519Priv(9), ServerEncryptionPrivateKeyType: types.KEYTYPE_X25519}
-		if err := rec.Store(ctx, st); err != nil {
-			panic(err)
-		}
+		vfRecord(ctx, st, recKey, recNonce, recEnc, 9)
 	}
-	before := st.count(1)
-	// a well-signed request with arbitrary key / nonce / encryption key
+	snap := st.Snapshot()
 	reqKey := vf.Int("reqkey", 2, 4)
 	reqNonce := vf.Bytes("reqnonce", 32)
 	vf.Assume(len(reqNonce) == nodeenrollment.NonceSize)
 	reqEnc := vf.X25519Pub(vf.Int("reqenc", 0, 1))
-	info := &types.FetchNodeCredentialsInfo{CertificatePublicKeyPkix: vf.Pkix(reqKey), CertificatePublicKeyType: types.KEYTYPE_ED25519,
-		Nonce: reqNonce, EncryptionPublicKeyBytes: reqEnc, EncryptionPublicKeyType: types.KEYTYPE_X25519,
-		NotBefore: timestamppb.New(t0.Add(-time.Hour)), NotAfter: timestamppb.New(t0.Add(time.Hour))}
-	bundle, _ := proto.Marshal(info)
-	req := &types.FetchNodeCredentialsRequest{Bundle: bundle, BundleSignature: vf.SigBy(reqKey, bundle)}
+	req := vfSignedRequest(t0, reqKey, reqNonce, reqEnc, nil)
 
 	resp, err := FetchNodeCredentials(ctx, st, req)
 	vf.Assume(vf.TimeLE(vf.Now(), t0.Add(time.Second))) // clock assumption: the call is short
-	issued := err == nil && resp != nil && len(resp.EncryptedNodeCredentials) > 0
+	issued := vfIssued(resp, err)
 	authorised := vf.And(hasRec, vf.And(reqKey == recKey, vf.And(vf.EqBytes(reqNonce, recNonce), vf.EqBytes(reqEnc, recEnc))))
 	if issued {
 		vf.Reach("issued")
@@ -164,6 +104,207 @@ func VerifC01NodeLed() {
 	} else {
 		vf.Reach("not-issued")
 		vf.Assert("authorised-request-is-served", vf.Not(authorised))
+		vf.Assert("refusal-is-empty-or-error", err != nil || len(resp.EncryptedNodeCredentials) == 0)
 	}
-	vf.Assert("no-new-node-record", st.count(1) == before)
+	vf.Assert("storage-unchanged", st.SameAs(snap))
+}
+
+// C01, clause (b): a token-shaped nonce enrolls only if it is exactly a token this server created whose
+// record is still present (unused), unexpired at the time of the call, and the key has no record yet.
+func VerifC01Token() {
+	ctx := context.Background()
+	st := &vfs.Storage{}
+	t0 := vf.Now()
+	vfs.StoreRoots(ctx, st, t0)
+	tokenId, token, err := CreateServerLedActivationToken(ctx, st, &types.ServerLedRegistrationRequest{})
+	if err != nil {
+		panic(err)
+	}
+	raw, err := base58.FastBase58Decoding(strings.TrimPrefix(token, nodeenrollment.ServerLedActivationTokenPrefix))
+	if err != nil {
+		panic(err)
+	}
+	stored, err := types.LoadServerLedActivationToken(ctx, st, tokenId)
+	if err != nil {
+		panic(err)
+	}
+	created := stored.CreationTime.AsTime()
+	// operator / earlier history: the token may already have been consumed, the key may already be enrolled
+	present := vf.Bool("token-record-present")
+	if !present {
+		if err := st.Remove(ctx, &types.ServerLedActivationToken{Id: tokenId}); err != nil {
+			panic(err)
+		}
+	}
+	reqKey := vf.Int("reqkey", 2, 3)
+	keyHasRecord := vf.Bool("key-already-has-record")
+	if keyHasRecord {
+		vfRecord(ctx, st, reqKey, vf.Bytes("recnonce", 32), vf.X25519Pub(0), 9)
+	}
+	// what the node presents as its nonce: the token, or the token with either half replaced
+	nonce := raw
+	variant := vf.Int("nonce-variant", 0, 2)
+	if variant != 0 {
+		tn := new(types.ServerLedActivationTokenNonce)
+		if err := proto.Unmarshal(raw, tn); err != nil {
+			panic(err)
+		}
+		other := vf.Bytes("other-half", 32)
+		vf.Assume(len(other) == 32)
+		if variant == 1 {
+			vf.Assume(vf.Not(vf.EqBytes(other, tn.Nonce)))
+			tn.Nonce = other
+		} else {
+			vf.Assume(vf.Not(vf.EqBytes(other, tn.HmacKeyBytes)))
+			tn.HmacKeyBytes = other
+		}
+		if nonce, err = proto.Marshal(tn); err != nil {
+			panic(err)
+		}
+	}
+	maxLife := vf.Dur("max-token-lifetime", -1000000000000000, 1000000000000000)
+	snap := st.Snapshot()
+	req := vfSignedRequest(t0, reqKey, nonce, vf.X25519Pub(1), nil)
+	tStart := vf.Now()
+	resp, err := FetchNodeCredentials(ctx, st, req, nodeenrollment.WithMaximumServerLedActivationTokenLifetime(maxLife))
+	tEnd := vf.Now()
+	vf.Assume(vf.TimeLE(tEnd, t0.Add(time.Second)))
+	issued := vfIssued(resp, err)
+	keyId, _ := nodeenrollment.KeyIdFromPkix(vf.Pkix(reqKey))
+	if issued {
+		vf.Reach("issued")
+		vf.Assert("issued-only-for-the-servers-own-token", variant == 0)
+		vf.Assert("issued-only-for-an-unused-token", present)
+		vf.Assert("issued-only-for-a-key-without-record", !keyHasRecord)
+		vf.Assert("issued-only-while-unexpired", vf.TimeLE(tStart, created.Add(maxLife)))
+		vf.Assert("record-created-for-the-request-key", vf.And(st.Has(vfs.KindNode, keyId), st.Count(vfs.KindNode) == 1))
+		vf.Assert("token-consumed", !st.Has(vfs.KindToken, tokenId))
+	} else {
+		vf.Reach("not-issued")
+		vf.Assert("valid-token-is-honoured", vf.Not(vf.And(vf.And(variant == 0, present), vf.And(!keyHasRecord, vf.TimeLE(tEnd, created.Add(maxLife))))))
+		vf.Assert("no-new-node-record", st.KindSameAs(vfs.KindNode, snap))
+	}
+}
+
+// C01, clause (c), wrapper flow: registration info sealed by the server's registration wrapper enrolls the
+// request it names; info sealed by anyone else, raw bytes, or info naming another nonce/key does not.
+func VerifC01Wrapped() {
+	ctx := context.Background()
+	st := &vfs.Storage{}
+	t0 := vf.Now()
+	vfs.StoreRoots(ctx, st, t0)
+	serverWrapper, foreignWrapper := vfAeadWrapper("reg", 6), vfAeadWrapper("reg", 7)
+	reqKey := vf.Int("reqkey", 2, 3)
+	reqNonce := vf.Bytes("reqnonce", 40) // the wrapper flow does not constrain the nonce length
+	vf.Assume(len(reqNonce) >= 1)
+	innerNonce, innerKey := reqNonce, reqKey
+	if !vf.Bool("inner-nonce-matches") {
+		innerNonce = vf.Bytes("inner-nonce", 40)
+		vf.Assume(vf.Not(vf.EqBytes(innerNonce, reqNonce)))
+	}
+	if !vf.Bool("inner-key-matches") {
+		innerKey = vf.Int("inner-key", 2, 4)
+		vf.Assume(innerKey != reqKey)
+	}
+	infoBytes, err := proto.Marshal(&types.WrappingRegistrationFlowInfo{Nonce: innerNonce, CertificatePublicKeyPkix: vf.Pkix(innerKey)})
+	if err != nil {
+		panic(err)
+	}
+	sealer := vf.Int("sealed-by", 0, 3) // 0: the server's wrapper, 1: a foreign wrapper, 2: garbage, 3: a well-formed blob with an arbitrary ciphertext
+	var wrapped []byte
+	switch sealer {
+	case 0, 1:
+		w := serverWrapper
+		if sealer == 1 {
+			w = foreignWrapper
+		}
+		blob, err := w.Encrypt(ctx, infoBytes)
+		if err != nil {
+			panic(err)
+		}
+		if wrapped, err = proto.Marshal(blob); err != nil {
+			panic(err)
+		}
+	case 2:
+		wrapped = vf.Garbage("garbage-wrapped-info", 64)
+	default:
+		if wrapped, err = proto.Marshal(&wrapping.BlobInfo{Ciphertext: vf.Bytes("forged-ciphertext", 40)}); err != nil {
+			panic(err)
+		}
+	}
+	configured := vf.Bool("registration-wrapper-configured")
+	var opts []nodeenrollment.Option
+	if configured {
+		opts = append(opts, nodeenrollment.WithRegistrationWrapper(serverWrapper))
+	}
+	if vf.Bool("key-already-has-record") {
+		vfRecord(ctx, st, reqKey, vf.Bytes("recnonce", 32), vf.X25519Pub(0), 9)
+	}
+	snap := st.Snapshot()
+	req := vfSignedRequest(t0, reqKey, reqNonce, vf.X25519Pub(1), wrapped)
+	resp, err := FetchNodeCredentials(ctx, st, req, opts...)
+	vf.Assume(vf.TimeLE(vf.Now(), t0.Add(time.Second)))
+	issued := vfIssued(resp, err)
+	legit := vf.And(vf.And(configured, sealer == 0), vf.And(vf.EqBytes(innerNonce, reqNonce), innerKey == reqKey))
+	if issued {
+		vf.Reach("issued")
+		vf.Assert("issued-only-for-info-sealed-by-the-server-and-matching", legit)
+	} else {
+		vf.Reach("not-issued")
+		vf.Assert("matching-sealed-info-is-honoured", vf.Not(legit))
+		vf.Assert("no-new-node-record", st.KindSameAs(vfs.KindNode, snap))
+	}
+}
+
+// C01, clause (c), re-wrapped flow: registration info re-sealed under the key shared with an already
+// registered node (named by the re-wrapping key ID) enrolls the request it names; info sealed under any
+// other key, naming an unknown node, or naming another nonce/key does not.
+func VerifC01Rewrapped() {
+	ctx := context.Background()
+	st := &vfs.Storage{}
+	t0 := vf.Now()
+	vfs.StoreRoots(ctx, st, t0)
+	// the registered intermediary: certificate key 4, encryption key pair 0, server side key pair 9
+	mid := vfRecord(ctx, st, 4, vf.Bytes("midnonce", 32), vf.X25519Pub(0), 9)
+	reqKey := vf.Int("reqkey", 2, 3)
+	reqNonce := vf.Bytes("reqnonce", 40)
+	vf.Assume(len(reqNonce) >= 1)
+	innerNonce, innerKey := reqNonce, reqKey
+	if !vf.Bool("inner-nonce-matches") {
+		innerNonce = vf.Bytes("inner-nonce", 40)
+		vf.Assume(vf.Not(vf.EqBytes(innerNonce, reqNonce)))
+	}
+	if !vf.Bool("inner-key-matches") {
+		innerKey = vf.Int("inner-key", 2, 4)
+		vf.Assume(innerKey != reqKey)
+	}
+	info := &types.WrappingRegistrationFlowInfo{Nonce: innerNonce, CertificatePublicKeyPkix: vf.Pkix(innerKey)}
+	// who re-seals: the intermediary's own credentials, or credentials that derive another shared key
+	sealerPriv := vf.Int("sealer-encryption-key", 0, 1)
+	sealer := &types.NodeCredentials{CertificatePublicKeyPkix: vf.Pkix(4), EncryptionPrivateKeyBytes: vf.X25519Priv(sealerPriv), EncryptionPrivateKeyType: types.KEYTYPE_X25519,
+		ServerEncryptionPublicKeyBytes: vf.X25519Pub(9), ServerEncryptionPublicKeyType: types.KEYTYPE_X25519}
+	rewrapped, err := nodeenrollment.EncryptMessage(ctx, info, sealer)
+	if err != nil {
+		panic(err)
+	}
+	named := mid.Id
+	namesKnown := vf.Bool("rewrapping-key-id-names-the-intermediary")
+	if !namesKnown {
+		named, _ = nodeenrollment.KeyIdFromPkix(vf.Pkix(5)) // no such record
+	}
+	snap := st.Snapshot()
+	req := vfSignedRequest(t0, reqKey, reqNonce, vf.X25519Pub(1), nil)
+	req.RewrappedWrappingRegistrationFlowInfo, req.RewrappingKeyId = rewrapped, named
+	resp, err := FetchNodeCredentials(ctx, st, req)
+	vf.Assume(vf.TimeLE(vf.Now(), t0.Add(time.Second)))
+	issued := vfIssued(resp, err)
+	legit := vf.And(vf.And(namesKnown, sealerPriv == 0), vf.And(vf.EqBytes(innerNonce, reqNonce), innerKey == reqKey))
+	if issued {
+		vf.Reach("issued")
+		vf.Assert("issued-only-for-info-resealed-by-a-registered-node-and-matching", legit)
+	} else {
+		vf.Reach("not-issued")
+		vf.Assert("matching-resealed-info-is-honoured", vf.Not(legit))
+		vf.Assert("no-new-node-record", st.KindSameAs(vfs.KindNode, snap))
+	}
 }
